@@ -16,7 +16,7 @@ pub fn on_assignment(
         element: converted_left,
         ..
     } = left.at_pos(pos).convert_in(ctx, ExprContext::Assignment)?;
-    assignment_post_conversion_validation_rules::validate(&converted_left, &converted_right)?;
+    assignment_post_conversion_validation_rules::validate(&converted_left, &converted_right, pos)?;
     Ok(Statement::assignment(converted_left, converted_right))
 }
 
@@ -61,7 +61,15 @@ mod assignment_post_conversion_validation_rules {
     pub fn validate(
         left_side: &Expression,
         right_side: &ExpressionPos,
+        pos: Position,
     ) -> Result<(), LintErrorPos> {
+        // `A(1) = 42` without a DIM for A is seen as a function call, which cannot be assigned to
+        if matches!(
+            left_side,
+            Expression::FunctionCall(_, _) | Expression::BuiltInFunctionCall(_, _)
+        ) {
+            return Err(LintError::ArrayNotDefined.at_pos(pos));
+        }
         if right_side.can_cast_to(left_side) {
             Ok(())
         } else {
